@@ -103,6 +103,9 @@ def collect(ctx, nprog, with_tests=True, seed_offset=0, explore_kw=None):
                   "flow b\n  match E1()\n  when A1Action(x=1)\n    send Out3()\n  or when E3()\n    send Out4()\n  match E2()\n\nflow main\n  start a\n  start b\n  match Never()\n"))
     progs.append(("shared-scoped-action:1", "flow f\n  match E2()\n\nflow g\n  match E3()\n\nflow a\n  match E1()\n  await f or A1Action(x=1)\n  send Out1()\n  match E3()\n\n"
                   "flow b\n  match E1()\n  await g or A1Action(x=1)\n  send Out2()\n  match E2()\n\nflow main\n  start a\n  start b\n  match Never()\n"))
+    # two flows share an action (started in the same step) and stop it themselves in the same later step
+    progs.append(("shared-action-stopped-twice:0", "flow a\n  match E1()\n  start A1Action(x=1) as $r\n  match E2()\n  send $r.Stop()\n  match E3()\n\n"
+                  "flow b\n  match E1()\n  start A1Action(x=1) as $r\n  match E2()\n  send $r.Stop()\n  match E3()\n\nflow main\n  start a\n  start b\n  match Never()\n"))
     # heads that lose an action conflict while a failure handler is installed (or-groups / when cases of raw actions)
     rival = "flow rival\n  match E1(p=1)\n  start A2Action(x=2)\n  match E3()\n\n"
     progs.append(("conflict-catch:0", "flow comp\n  match E1()\n  start A1Action(x=1) or A2Action(x=1)\n  match E2()\n\n" + rival
